@@ -318,12 +318,12 @@ def _lf_case(case, out, sample=False):
 
     fails = []
     lf = L.new_lf(case)
-    lf._c07_taxa = case["taxa"]
+    ml = ":ml" if L.is_ml(case) else ""
     executed = []  # flattened simple ops with result (+ snapshot for opt / calc)
     cur_aln = case["aln0"]
 
     def fail(what, sig, idx, expected, got, extra=None):
-        inp = dict(kind="lf", model=case["model"], taxa=case["taxa"], aln0=case["aln0"], ops=case["ops"][: idx + 1])
+        inp = dict(kind="lf", **{k: v for k, v in case.items() if k != "ops"}, ops=case["ops"][: idx + 1])
         if extra:
             inp.update(extra)
         fails.append(dict(what=what, sig=sig, input=inp, expected=expected, got=got))
@@ -381,7 +381,6 @@ def _lf_case(case, out, sample=False):
         obs = L.observe(lf)
         # O1: a new function given the same (successful) settings, one at a time
         f1 = L.new_lf(case)
-        f1._c07_taxa = case["taxa"]
         bad_replay = False
         for e in executed:
             if e["res"] != "ok" or e["op"][0] == "bad":
@@ -401,8 +400,11 @@ def _lf_case(case, out, sample=False):
             fail("lnL differs from a newly built function given the same settings one by one",
                  f"lf:replay-lnL:{opk}", idx, o1["lnL"], obs["lnL"])
         elif obs["nfp"] != o1["nfp"]:
-            fail("nfp differs from a newly built function given the same settings", f"lf:replay-nfp:{opk}", idx,
+            fail("nfp differs from a newly built function given the same settings", f"lf:replay-nfp:{opk}{ml}", idx,
                  o1["nfp"], obs["nfp"])
+        elif not L.vec_close(obs["optvec"], o1["optvec"], 1e-7):
+            fail("optimiser parameter vector differs from a newly built function given the same settings",
+                 f"lf:replay-optvec:{opk}{ml}", idx, o1["optvec"], obs["optvec"])
         else:
             for key, v in obs["values"].items():
                 w = o1["values"].get(key)
@@ -414,16 +416,39 @@ def _lf_case(case, out, sample=False):
         try:
             f2 = L.fresh_from_rules(case, lf, cur_aln)
             o2 = L.observe(f2)
+            bad = None
             if not L.close(obs["lnL"], o2["lnL"]):
-                fail("get_param_rules -> apply_param_rules on a new function gives a different lnL",
-                     f"lf:rules-lnL:{opk}", idx, obs["lnL"], o2["lnL"])
+                bad = ("lnL", "get_param_rules -> apply_param_rules on a new function gives a different lnL",
+                       obs["lnL"], o2["lnL"])
             elif obs["nfp"] != o2["nfp"]:
-                fail("get_param_rules -> apply_param_rules on a new function gives a different nfp",
-                     f"lf:rules-nfp:{opk}", idx, obs["nfp"], o2["nfp"])
+                bad = ("nfp", "get_param_rules -> apply_param_rules on a new function gives a different nfp",
+                       obs["nfp"], o2["nfp"])
+            elif not L.vec_close(obs["optvec"], o2["optvec"], 1e-9):
+                bad = ("optvec", "get_param_rules -> apply_param_rules on a new function gives a different optimiser "
+                       "parameter vector", obs["optvec"], o2["optvec"])
+            if bad:
+                # diagnostic: are the exported rules right and only their ORDER wrong?
+                order_only = False
+                try:
+                    o2b = L.observe(L.fresh_from_rules(case, lf, cur_aln, reorder=True))
+                    order_only = (L.close(obs["lnL"], o2b["lnL"]) and obs["nfp"] == o2b["nfp"]
+                                  and L.vec_close(obs["optvec"], o2b["optvec"], 1e-9))
+                except Exception:  # noqa
+                    pass
+                if order_only:
+                    fail("exported rules reproduce the function only when applied in another order: a rule whose "
+                         "scope rectangle covers another rule's scope is exported after it (" + bad[0] + " differs)",
+                         f"lf:rules-order{ml}", idx, bad[2], bad[3])
+                else:
+                    fail(bad[1], f"lf:rules-{bad[0]}:{opk}{ml}", idx, bad[2], bad[3])
         except Exception as e:  # noqa
             fail("exported rules cannot be applied to a new function", f"lf:rules-raise:{type(e).__name__}", idx,
                  "applies", repr(e)[:200])
-        # O3: everything constant at the reported values
+        # O3: everything constant at the reported values (single-locus, single-bin functions only)
+        if ml:
+            if fails:
+                break
+            continue
         try:
             f3 = L.fresh_constant(case, lf, cur_aln, obs)
             with L._Quiet():
@@ -537,6 +562,54 @@ def _rules_real_roundtrip(model, par, taxa_idx, ops):
     return None
 
 
+def _spec_lf_ml(ctx, out, rng, n_cases, n_ops):
+    """multi-locus / discrete-time (BH, DT) / gamma-bin functions: parameters tied or split across
+    edges, loci and bins at once, per-locus motif probs, constants and bounds"""
+    from . import c07_lf as L
+
+    # fixed cases first: one parameter tied over several scope dimensions at once, in every order
+    # the dimensions can take in the exported rule
+    gam = dict(with_rate=True, distribution="gamma")
+    e4 = ["Cat", "Human", "Rat"]
+    fixed = [
+        dict(model="BH", loci=["a", "b"], nodeg=True, taxa=0, aln0=0,
+             ops=[["rule", "psubs", {"locus": "a", "edges": e4[:2], "is_independent": False}]]),
+        dict(model="DT", loci=["a", "b"], nodeg=True, taxa=0, aln0=1,
+             ops=[["rule", "psubs", {"loci": ["a", "b"], "edge": "Human", "is_independent": False}]]),
+        dict(model="BH", loci=["a", "b"], nodeg=True, taxa=0, aln0=0,
+             ops=[["rule", "psubs", {"loci": ["a", "b"], "edges": e4, "is_independent": False}],
+                  ["rule", "psubs", {"locus": "b", "edge": "Cat", "is_constant": True}]]),
+        dict(model="HKY85", loci=["a", "b"], taxa=0, aln0=0,
+             ops=[["rule", "kappa", {"loci": ["a", "b"], "is_independent": True, "init": 2.0}],
+                  ["rule", "kappa", {"locus": "a", "edges": e4[:2], "is_independent": False, "init": 3.0, "upper": 9.0}],
+                  ["mprobs", {"T": 0.1, "C": 0.2, "A": 0.3, "G": 0.4}, {"locus": "b"}]]),
+        dict(model="HKY85", mkw=gam, bins=2, taxa=0, aln0=2,
+             ops=[["rule", "kappa", {"bins": ["bin0", "bin1"], "is_independent": True, "init": 2.0}],
+                  ["rule", "kappa", {"bin": "bin0", "edges": e4, "is_independent": False, "is_constant": True, "value": 1.5}]]),
+        dict(model="HKY85", mkw=gam, bins=2, loci=["a", "b"], taxa=2, aln0=0,
+             ops=[["rule", "kappa", {"bins": ["bin0", "bin1"], "loci": ["a", "b"], "is_independent": True, "init": 2.0}],
+                  ["rule", "kappa", {"bin": "bin1", "locus": "a", "edges": ["Cat", "Dog"], "is_independent": False, "init": 0.7}]]),
+        dict(model="GN", loci=["a", "b"], taxa=2, aln0=1,
+             ops=[["rule", "A>G", {"loci": ["a", "b"], "is_independent": True, "init": 1.7}],
+                  ["rule", "length", {"edges": ["Cat", "Dog"], "is_independent": False, "init": 0.2}],
+                  ["mprobs", {"T": 0.3, "C": 0.2, "A": 0.3, "G": 0.2}, {"locus": "a"}]]),
+    ]
+    for ci in range(len(fixed) + n_cases):
+        case = fixed[ci] if ci < len(fixed) else L.rand_ml_case(rng, n_ops)
+        out["evaluations"] += 1
+        bump(out, "lf_ml_config", f"{case['model']}:loci={len(case.get('loci') or [])}:bins={case.get('bins') or 0}")
+        try:
+            fails = _lf_case(case, out, sample=ci < 1)
+        except Exception as e:  # noqa
+            fails = [dict(what="likelihood function history could not be run: " + repr(e)[:150],
+                          sig="lf:raised:" + type(e).__name__ + ":ml", expected="runs",
+                          got=type(e).__name__, input=dict(kind="lf", **case))]
+        for f in fails:
+            add_failure(out, "spec", f["what"], f["input"], f["expected"], f["got"], sig=f["sig"])
+        if not fails:
+            out["nontrivial"].add(("lf-ml", ci, case["model"]))
+
+
 def _spec_rules(ctx, out, rng, n):
     from . import c07_rules as R
 
@@ -569,6 +642,7 @@ def spec_check(ctx, budget):
     _spec_rules(ctx, out, rng, 60 * budget)
     n_cases = 60 * budget if not ctx.thorough else 40 * budget
     _spec_lf(ctx, out, rng, n_cases, 7, (4, 10, 25))
+    _spec_lf_ml(ctx, out, rng, (24 * budget) if not ctx.thorough else 20 * budget, 5)
     return out
 
 
@@ -623,7 +697,7 @@ def _replay_input(inp):
     if inp.get("kind") == "lf":
         out = new_outcome()
         try:
-            fails = _lf_case(dict(model=inp["model"], taxa=inp["taxa"], aln0=inp["aln0"], ops=inp["ops"]), out)
+            fails = _lf_case({k: v for k, v in inp.items() if k not in ("kind", "step")}, out)
         except Exception as e:  # noqa
             print("raised", repr(e)[:200])
             return True
@@ -658,7 +732,7 @@ def replay(ctx, data):
 def check_witness(ctx, w):
     out = new_outcome()
     if w.get("kind") == "lf":
-        fails = _lf_case(dict(model=w["model"], taxa=w["taxa"], aln0=w["aln0"], ops=w["ops"]), out)
+        fails = _lf_case({k: v for k, v in w.items() if k != "kind"}, out)
         for f in fails:
             add_failure(out, "spec", f["what"], f["input"], f["expected"], f["got"], sig=f["sig"])
         return out["failures"][0] if out["failures"] else None
